@@ -91,6 +91,33 @@ def astq_guard_at(ctx, file, line):
     return best
 
 
+def inherited_arm_variants(ctx, prog, s):
+    """Match-arm variants under which *every* caller reaches the construct, when it sits in a private helper: the helper body
+    (`write_unit_enum(shared)`) carries no frame of its own, but each caller's inlined view shows the construct under the arm
+    that calls the helper (`RustEnum::Unit(shared) => self.write_unit_enum(w, shared)`).  Empty when some caller cannot be
+    followed."""
+    b = prog.bodies.get(s['body'])
+    root = (b.get('root') or s['body']) if b else s['body']
+    callers = sorted({k for k, cb in prog.bodies.items() for c in cb['calls'] if root in prog.targets_of_call(c) and k != root})
+    if not callers:
+        return []
+    common = None
+    for k in callers:
+        cb = prog.bodies[k]
+        rb = prog.bodies.get(cb.get('root') or k) or cb
+        fs = [f for f in ctx.astq['functions'] if rb['file'].endswith(f['file']) and f['line'] == rb['line']]
+        if len(fs) != 1:
+            return []
+        G = ctx.x(fs[0])
+        recs = [r for r in G.get('panics', []) if r.get('line') == s['line'] and r.get('via')]
+        if not recs:
+            return []
+        for r in recs:
+            vs = {v for fr in r.get('guard', []) if fr.get('k') == 'arm' for v in fr.get('variants', [])}
+            common = vs if common is None else (common & vs)
+    return sorted(common or [])
+
+
 def constructed_variants(prog, adt_suffix):
     """Variant names of an enum with at least one non-derived construction site anywhere in the workspace."""
     out = {}
@@ -156,6 +183,8 @@ def run(ctx, rep):
             g = astq_guard_at(ctx, s['file'], s['line'])
             frames = g[1] if g else []
             arm_variants = [v for fr in frames if fr.get('k') == 'arm' for v in fr.get('variants', [])]
+            if s['kind'] in ('panic', 'unreachable', 'todo', 'unimplemented') and not arm_variants:
+                arm_variants = inherited_arm_variants(ctx, prog, s)
             # P3: arm over never-constructed SpecialRustType variants
             last_arm = next((fr for fr in reversed(frames) if fr.get('k') == 'arm'), None)
             if s['kind'] in ('panic', 'unreachable', 'todo', 'unimplemented') and last_arm and last_arm['variants'] and all(v.startswith('SpecialRustType::') for v in last_arm['variants']):
@@ -194,6 +223,11 @@ def run(ctx, rep):
                     continue
             # table lookup
             ent = lookup(table, s, used_entries, prog)
+            if ent is None:
+                # the same assertion in another idiom: `let Some(..) = xs.split_first() else { panic!(..) }` / `if xs.is_empty() {
+                # unreachable!() }` states what `xs.first().expect(..)` states — the construct is reached only when the
+                # required list is empty, and the table's discharge (clap `required`) is about that list
+                ent = emptiness_assertion(ctx, table, s, prog)
             if ent is None:
                 rep.fail('P2', key, f"unclassified panic-capable construct `{s['snippet'][:100]}` ({s['kind']}, {s['callee'][:70]}) in {s['fn']}; reached via {path}", site)
             elif ent['class'] == 'guarded':
@@ -459,6 +493,38 @@ def lookup(table, s, used=None, prog=None):
                 continue
             used[i] = used.get(i, 0) + 1
         return e
+    return None
+
+
+def emptiness_assertion(ctx, table, s, prog):
+    """The 'clap-required' table entry whose subject list is the one this panic-capable construct asserts to be non-empty."""
+    if s['kind'] not in ('panic', 'unreachable', 'unwrap', 'expect'):
+        return None
+    for e in table['sites']:
+        if e.get('discharge') != 'clap-required' or not e.get('fn'):
+            continue
+        if e['fn'] not in s['fn'] and (prog is None or s['fn'] not in helpers_of(prog, e['fn'])):
+            continue
+        m = re.match(r'\s*&?\s*([A-Za-z_]\w*)', e['snippet'])
+        if not m:
+            continue
+        subject = m.group(1)
+        for f in ctx.astq['functions']:
+            if not s['file'].endswith(f['file'].split('/')[-1]) or not (f['line'] <= s['line'] <= f.get('end_line', 10 ** 9)):
+                continue
+            for rec in f.get('panics', []):
+                if rec.get('line') != s['line']:
+                    continue
+                for fr in rec.get('guard', []):
+                    if fr.get('k') != 'if':
+                        continue
+                    c = vt.unvar(fr.get('c'))
+                    if isinstance(c, dict) and c.get('k') == 'iflet' and fr.get('neg') and c.get('variants') == ['Some']:
+                        txt = vt.show(vt.strip(c.get('scrut'))).replace(' ', '')
+                        if re.fullmatch(rf'&?{re.escape(subject)}\.(split_first|first|last|split_last|get\(0\)|iter\(\)\.next)\(?\)?', txt) or txt in (f'{subject}.split_first()', f'{subject}.first()', f'{subject}.last()', f'{subject}.split_last()'):
+                            return e
+                    if isinstance(c, dict) and c.get('k') == 'call' and c.get('f') == 'is_empty' and not fr.get('neg') and vt.show(vt.strip(c.get('recv'))).replace(' ', '').lstrip('&') == subject:
+                        return e
     return None
 
 
